@@ -1,3 +1,3 @@
 From Coq Require Import ExtrOcamlBasic.
 From Draco Require Import Base.DriverSupport Model.CornerTable Model.Predict.
-Extraction "m.ml" ds_api ct_create par_encode par_decode mp_encode mp_decode mp_choice tc_encode tc_decode tc_choice.
+Extraction "m.ml" ds_api ct_create par_encode par_decode mp_encode mp_decode mp_choice tc_encode tc_decode tc_choice gn_encode gn_decode.
